@@ -75,6 +75,22 @@ func (e *Engine) encodeFunction(name string) (fe *FuncEnc, err error) {
 		}
 		fe.inputs = append(fe.inputs, ModelInput{Name: p.Name(), Sym: t.S, Sort: s, Type: types.TypeString(p.Type(), nil)})
 	}
+	// cell invariants hold for every object at all times: assume them for the fields of pointer parameters at entry
+	for _, p := range fn.Params {
+		n, stt, ok := fe.structOfPointer(p.Type())
+		if !ok {
+			continue
+		}
+		info := e.sorts.structInfo(e.sorts.sortOf(n))
+		for i := 0; i < stt.NumFields(); i++ {
+			comp := fieldComp(e.sorts, n, stt, i)
+			if ci := fe.cellInvFor(comp); ci != nil {
+				h := fe.comp(st, comp, arrSort(SInt, info.FSorts[i]))
+				v := tSelect(h, f.vals[p])
+				fe.assume(tNot(tEq(f.vals[p], tInt(0))), fe.evalCellInv(ci, v, stt.Field(i).Type(), st))
+			}
+		}
+	}
 	fe.initMonitor(f, st)
 	// nothing runs after the process has exited
 	if e.modsetOf(fn)["G_io_Exited"] {
